@@ -18,6 +18,8 @@ def run(facts, tier):
         ("inferred emptiness", T.inferred_emptiness, 4, "a result may be flagged empty because it has no entries only when theta == MAX (truth table over source flag, no entries, estimation mode): an estimation-mode result without entries is not empty"),
         ("result claims", T.result_claims, 4, "on every structured path to the result of union / intersection / A-not-B: the ordered flag implies sorted entries (truth assignments consistent with the path), and the union result passes the trim to the nominal size after being filled"),
         ("ordered flag", T.ordered_flag_validity, 3, "operands that claim is_ordered_ really are sorted: the compacting constructors sort whenever they set the flag for an unordered source"),
+        ("table copies", lambda fa: [o for o in c19_rules.special_members(fa) if o["key"].startswith(("theta_update_sketch_base::", "theta_union_base::", "theta_intersection_base::"))], 20, "the hash table that union / intersection objects hold and copy carries every field (emptiness flag, theta, counters, sizes) into the copy: a copied operand or set-operation object behaves like the original"),
+        ("compressed deltas", T.entry_bits_cover_all_deltas, 1, "the field width of compressed compact images covers every delta of the ordered hashes, the first one counted from zero (operands wrapped or restored from compressed images equal the originals)"),
         ("builder/reset", T.builder_reset, 2, "union reset re-reads theta after the table reset"),
         ("couplings", lambda fa: cowrite.obligations(fa, ['theta_union_base']), 2, "fields that every mutator updates together (counters, extremes, cached values) are still updated together"),
         ("reset completeness", lambda fa: c19_rules.reset_completeness(fa, ['theta_union_base','theta_union_alloc']), 2, "every field a mutator modifies is re-initialised by reset() (a reused object equals a fresh one); reviewed exceptions are configuration fields"),
